@@ -6,6 +6,7 @@ use crate::engine::{CaseStats, Fail};
 use crate::gen::{self, GenCfg};
 use crate::interp::{self, RunCfg};
 use crate::runner::{env_seed, run_generated, Outcome, Report, Tier};
+use crate::script::{self, ScriptCfg, ScriptGen, ScriptSpec, Step};
 use crate::spec::*;
 use crate::with_metric;
 
@@ -296,9 +297,243 @@ pub fn run_history_prop(p: HistoryProp, tier: Tier) -> i32 {
     report.finish(Outcome::Pass)
 }
 
+// ------------------------------------------------------------------------------------------------
+// Script properties (C06, C07, C18, C19)
+
+pub struct ScriptTier {
+    pub label: &'static str,
+    pub gen: ScriptGen,
+    pub quick: u64,
+    pub thorough: u64,
+}
+
+pub struct ScriptProp {
+    pub id: &'static str,
+    pub level: &'static str,
+    pub rule: &'static str,
+    pub cfg: ScriptCfg,
+    pub tiers: Vec<ScriptTier>,
+    pub nontrivial: fn(&ScriptSpec, &CaseStats) -> bool,
+    pub assumptions: Vec<&'static str>,
+}
+
+pub fn exec_script(spec: &ScriptSpec, cfg: &ScriptCfg, st: &mut CaseStats) -> Result<(), Fail> {
+    let a = script::run_script(spec, cfg, false, st)?;
+    if cfg.twin_append && st.get("append_accepted") > 0 {
+        let mut throwaway = CaseStats::default();
+        let twin_cfg = ScriptCfg { twin_append: false, built: None, ..cfg.clone() };
+        let b = script::run_script(spec, &twin_cfg, true, &mut throwaway)?;
+        if a.commit_dumps.len() != b.commit_dumps.len() {
+            return Err(Fail::Infra("twin run committed a different number of times".into()));
+        }
+        for (i, (x, y)) in a.commit_dumps.iter().zip(b.commit_dumps.iter()).enumerate() {
+            if x != y {
+                return crate::engine::violation(
+                    "append-vs-add",
+                    format!("after commit {i} the database written with append_item differs from the one written with add_item: {}", script::first_diff(y, x)),
+                );
+            }
+        }
+        if a.final_dump != b.final_dump {
+            return crate::engine::violation("append-vs-add", format!("final databases differ: {}", script::first_diff(&b.final_dump, &a.final_dump)));
+        }
+        st.flag("twin_compared");
+    }
+    Ok(())
+}
+
+fn script_gen_base() -> ScriptGen {
+    ScriptGen {
+        n_indexes: (1, 2),
+        adjacent: false,
+        metrics: ALL_METRICS.to_vec(),
+        dims: vec![2, 3],
+        classes: vec![ValueClass::Grid, ValueClass::Uniform],
+        steps: (3, 14),
+        weights: [14, 3, 4, 8, 5, 3, 2, 0, 3, 14, 4, 5, 10, 5],
+        id_pool: (3, 8),
+        split_after: vec![None, Some(1), Some(2)],
+        n_trees: vec![None, Some(1), Some(2)],
+        edge_ids: false,
+    }
+}
+
+fn c06_nontrivial(s: &ScriptSpec, st: &CaseStats) -> bool {
+    if st.get("builds_ok") == 0 {
+        return false;
+    }
+    // a no-op directly after a build, or a stale-making op followed later by a commit
+    let mut after_build_noop = false;
+    let mut stale_then_commit = false;
+    let mut seen_stale = false;
+    for w in s.steps.windows(2) {
+        if matches!(w[0], Step::Build { .. }) && matches!(w[1], Step::DelAbsent { .. } | Step::AddBadLen { .. } | Step::AppendBadLen { .. }) {
+            after_build_noop = true;
+        }
+    }
+    for x in &s.steps {
+        match x {
+            Step::Add { .. } | Step::Del { .. } | Step::AppendHigh { .. } | Step::Append { .. } => seen_stale = true,
+            Step::Commit if seen_stale => stale_then_commit = true,
+            _ => {}
+        }
+    }
+    after_build_noop || stale_then_commit
+}
+
+pub fn script_props(id: &str) -> Option<ScriptProp> {
+    let base_assume = vec![
+        "LMDB/heed transaction semantics are trusted",
+        "a cancelled build is always followed by the abort that C10 prescribes; the state in between is not judged here",
+    ];
+    match id {
+        "C06" => Some(ScriptProp {
+            id: "C06",
+            level: "exploration",
+            rule: "step scripts over 1-2 indexes where every operation kind (add, append ok/rejected, overwrite, del existing/absent, \
+                   wrong length, clear, build, cancelled build+abort, commit, abort, change metric) appears at every position \
+                   relative to the last build; oracle = (built, stale) bits per index: after EVERY step need_build == stale||!built \
+                   and Reader::open under the built metric and one other metric returns Ok / MissingMetadata / NeedBuild / \
+                   UnmatchingDistance accordingly, inside the write txn and from a fresh read txn after commit/abort. Non-trivial = \
+                   a build succeeded and (a no-op directly follows a build, or a stale-making op precedes a later commit)",
+            cfg: ScriptCfg { staleness: true, ..Default::default() },
+            tiers: vec![ScriptTier { label: "C06-script", gen: script_gen_base(), quick: 12_000, thorough: 300_000 }],
+            nontrivial: c06_nontrivial,
+            assumptions: base_assume,
+        }),
+        "C07" => Some(ScriptProp {
+            id: "C07",
+            level: "exploration",
+            rule: "interleaved step scripts on 2-3 indexes (adjacent pairs, (0,65535), (255,256), (65534,65535)), item ids at the u32 \
+                   edges; oracle = raw dump restricted to every other index's key range is byte-identical before/after each step on \
+                   the active index (add, append, del, clear, build with any options, metric change), abort restores the txn-start \
+                   dump. Non-trivial = a passive index that is built with trees and adjacent (+-1) to the active index while the \
+                   active step is clear / build / metric change",
+            cfg: ScriptCfg { isolation: true, ..Default::default() },
+            tiers: vec![ScriptTier {
+                label: "C07-script",
+                gen: ScriptGen {
+                    n_indexes: (2, 3),
+                    adjacent: true,
+                    dims: vec![1, 2, 3, 8],
+                    steps: (8, 40),
+                    weights: [30, 3, 3, 10, 2, 1, 1, 0, 3, 10, 2, 3, 6, 3],
+                    id_pool: (6, 24),
+                    split_after: vec![None, Some(1), Some(2), Some(50)],
+                    n_trees: vec![None, Some(1), Some(3)],
+                    edge_ids: true,
+                    ..script_gen_base()
+                },
+                quick: 5000,
+                thorough: 100_000,
+            }],
+            nontrivial: |_s, st| st.get("passive_adjacent_built_vs_heavy_op") > 0,
+            assumptions: base_assume,
+        }),
+        "C18" => Some(ScriptProp {
+            id: "C18",
+            level: "exploration",
+            rule: "scripts with prepare_changing_distance over all 49 ordered metric pairs x index shapes (empty, never built, single \
+                   bucket, deep forest, pending updates) x dims {1,3,20,64,65,130} x neighbours at index +-1; oracle at the change: \
+                   ids unchanged, vectors as representable under the new metric (decoded leaves incl. stored length, item_vector, \
+                   iter), no tree key, no metadata, need_build, passive indexes byte-identical; after the next build: forest walker \
+                   + exact search under the new metric; open under another metric -> UnmatchingDistance. Non-trivial = quantised -> \
+                   float with dims % 64 != 0, or a source with pending updates",
+            cfg: ScriptCfg {
+                metric_change: true,
+                isolation: true,
+                staleness: true,
+                built: Some(RunCfg { structure: true, search_exact: true, ..Default::default() }),
+                ..Default::default()
+            },
+            tiers: vec![ScriptTier {
+                label: "C18-script",
+                gen: ScriptGen {
+                    n_indexes: (1, 3),
+                    adjacent: true,
+                    dims: vec![1, 3, 20, 64, 65, 130],
+                    steps: (4, 30),
+                    weights: [30, 2, 2, 6, 1, 0, 0, 0, 1, 8, 0, 8, 5, 1],
+                    id_pool: (4, 40),
+                    split_after: vec![None, Some(2), Some(5)],
+                    n_trees: vec![None, Some(1), Some(2)],
+                    edge_ids: true,
+                    ..script_gen_base()
+                },
+                quick: 3000,
+                thorough: 60_000,
+            }],
+            nontrivial: |_s, st| st.get("bq_to_float_unaligned_dims") > 0 || st.get("metric_change_with_pending_updates") > 0,
+            assumptions: base_assume,
+        }),
+        "C19" => Some(ScriptProp {
+            id: "C19",
+            level: "exploration",
+            rule: "at every point of small scripts: add/append/by_vector with lengths {0,1,2,3,5,64,10000}, append with (index,id) below / \
+                   equal / above the maximum key of the whole database (other indexes above and below), del of absent ids; oracle: \
+                   exact error values (InvalidVecDimension{expected,received}, InvalidItemAppend iff my key encoding is not greater \
+                   than the last raw key), raw dump byte-identical and need_build unchanged after each rejected call, and a twin \
+                   database executing accepted appends as adds has the same dump after every commit. Non-trivial = a rejection on \
+                   an index that is built and clean",
+            cfg: ScriptCfg { rejected: true, twin_append: true, ..Default::default() },
+            tiers: vec![ScriptTier {
+                label: "C19-script",
+                gen: ScriptGen {
+                    n_indexes: (1, 3),
+                    steps: (4, 30),
+                    weights: [20, 8, 6, 6, 6, 6, 6, 5, 1, 8, 0, 1, 6, 2],
+                    id_pool: (3, 16),
+                    dims: vec![1, 2, 3, 5, 64],
+                    ..script_gen_base()
+                },
+                quick: 8000,
+                thorough: 120_000,
+            }],
+            nontrivial: |_s, st| st.get("rejected_on_clean_built") > 0,
+            assumptions: base_assume,
+        }),
+        _ => None,
+    }
+}
+
+pub fn render_script(s: &ScriptSpec) -> Value {
+    json!(s.render())
+}
+
+pub fn run_script_prop(p: ScriptProp, tier: Tier) -> i32 {
+    let mut report = Report::new(p.id, tier, p.level, p.rule);
+    report.assumptions = p.assumptions.iter().map(|s| s.to_string()).collect();
+    let nontrivial = p.nontrivial;
+    for t in &p.tiers {
+        let cases = tier.pick(t.quick, t.thorough);
+        let cfg = p.cfg.clone();
+        let out = run_generated(
+            t.label,
+            env_seed(),
+            cases,
+            || script::script(&t.gen),
+            render_script,
+            move |spec: &ScriptSpec, st: &mut CaseStats| {
+                let r = exec_script(spec, &cfg, st);
+                st.nontrivial = nontrivial(spec, st);
+                r
+            },
+            &mut report.acc,
+        );
+        match out {
+            Outcome::Pass => {}
+            other => return report.finish(other),
+        }
+    }
+    report.finish(Outcome::Pass)
+}
+
 pub fn run_property(id: &str, tier: Tier) -> i32 {
     if let Some(p) = history_props(id) {
         return run_history_prop(p, tier);
+    }
+    if let Some(p) = script_props(id) {
+        return run_script_prop(p, tier);
     }
     eprintln!("unknown property {id}");
     2
@@ -349,6 +584,33 @@ pub fn replay_file(path: &str) -> i32 {
             }
             println!("replay of {path}: no violation ({} attempt(s){})", attempts, if multi { ", multi-threaded build: node ids depend on timing" } else { "" });
             return 0;
+        }
+    }
+    if let Some(p) = script_props(&prop) {
+        if p.tiers.iter().any(|t| t.label == engine) {
+            let spec: ScriptSpec = match serde_json::from_value(v["case"].clone()) {
+                Ok(s) => s,
+                Err(e) => {
+                    eprintln!("replay case does not parse as a script: {e}");
+                    return 2;
+                }
+            };
+            let mut st = CaseStats::default();
+            return match exec_script(&spec, &p.cfg, &mut st) {
+                Err(Fail::Violation(viol)) => {
+                    println!("violation: [{}] {}", viol.signature, viol.message);
+                    println!("VIOLATION property={prop} replay={path}");
+                    1
+                }
+                Err(Fail::Infra(m)) => {
+                    eprintln!("INCONCLUSIVE: {m}");
+                    2
+                }
+                _ => {
+                    println!("replay of {path}: no violation");
+                    0
+                }
+            };
         }
     }
     eprintln!("no replay engine for property {prop:?} engine {engine:?}");
